@@ -339,7 +339,10 @@ TRANS_PLANS = {
                                 ('t2', TC(addrs=('a', 'b'), ids=3, callers=(1, 2), maxclock=2, maxcalls=2, kills=1))]},
         'devs': [('deadidle', ['NoAliveCheckOnIdle'], TC(ids=3, maxclock=3)),
                  ('wrongaddr', ['WrongAddress'], TC(addrs=('a', 'b'), ids=3, maxclock=3)),
-                 ('nomark', ['NoMarkDead'], TC(ids=3, callers=(1,), maxclock=1, maxcalls=6, kills=1))],
+                 ('nomark', ['NoMarkDead'], TC(ids=3, callers=(1,), maxclock=1, maxcalls=6, kills=1)),
+                 ('appendidle', ['AppendIdleNoCheck'], TC(ids=4, callers=(1, 2), maxclock=3, maxcalls=4, kills=1)),
+                 ('rrnocheck', ['RoundRobinNoCheck'], TC(ids=3, callers=(1, 2), maxclock=1, maxcalls=3, kills=1)),
+                 ('replacedead', ['ReplaceKeepsDead'], TC(ids=4, callers=(1, 2), maxclock=3, maxcalls=4, kills=1))],
         'sims': [('s1', TC(ids=6, callers=(1, 2), maxclock=6, maxcalls=5, kills=2)),
                  ('s2', TC(addrs=('a', 'b'), ids=6, callers=(1, 2), maxclock=6, maxcalls=4, kills=2)),
                  ('s4', TC(ids=6, callers=(1,), maxconns=1, maxidle=1, maxclock=6, maxcalls=6, kills=2)),
